@@ -3,6 +3,7 @@
 #ifndef _GNU_SOURCE
 #define _GNU_SOURCE
 #endif
+#include <errno.h>
 #include <fcntl.h>
 #include <stdarg.h>
 #include <stdint.h>
@@ -80,9 +81,14 @@ struct MemFile {
   size_t nreads = 0;
   size_t total_written = 0, oversize_writes = 0;
   bool allow_huge = false;
+  size_t fail_read_call = 0; // 0 = never; k = the k-th read call and all later ones fail with EIO
   static ssize_t rd(void *c, char *buf, size_t n) {
     MemFile *m = (MemFile *)c;
     m->nreads++;
+    if (m->fail_read_call && m->nreads >= m->fail_read_call) { // injected persistent I/O error (dead disk)
+      errno = EIO;
+      return -1;
+    }
     if (m->pos >= m->data.size()) return 0;
     size_t k = std::min(n, m->data.size() - m->pos);
     memcpy(buf, m->data.data() + m->pos, k);
